@@ -453,10 +453,16 @@ class NLAbs:
         self.mulI = z3.Function('nl!imul', z3.IntSort(), z3.IntSort(), z3.IntSort())
         self.ok = True
 
+    def _num_leaves(self, t, depth=0):
+        if depth > 6: return False
+        if z3.is_app(t) and t.decl().kind() == z3.Z3_OP_ITE:
+            return self._num_leaves(t.arg(1), depth + 1) and self._num_leaves(t.arg(2), depth + 1)
+        return z3.is_int_value(t) or z3.is_rational_value(t)
+
     def ab(self, e):
         i = e.get_id()
-        if i in self.memo: return self.memo[i]
-        r = self._ab(e); self.memo[i] = r
+        if i in self.memo: return self.memo[i][1]
+        r = self._ab(e); self.memo[i] = (e, r)
         return r
 
     def _ab(self, e):
@@ -469,6 +475,20 @@ class NLAbs:
         isnum = lambda c: z3.is_int_value(c) or z3.is_rational_value(c) or z3.is_algebraic_value(c)
         if k == z3.Z3_OP_MUL:
             nums = [c for c in ch if isnum(c)]; rest = [c for c in ch if not isnum(c)]
+            # distribute over an if-then-else factor whose leaves are numerals (e.g. the value of Sign(x)):
+            # c * ite(p, 1, -1) * y  ==>  ite(p, c*y, -c*y), which is linear again
+            for idx, c in enumerate(rest):
+                if z3.is_app(c) and c.decl().kind() == z3.Z3_OP_TO_REAL and z3.is_app(c.arg(0)) and c.arg(0).decl().kind() == z3.Z3_OP_ITE:
+                    c = c.arg(0)
+                if z3.is_app(c) and c.decl().kind() == z3.Z3_OP_ITE and self._num_leaves(c) and len(rest) >= 2:
+                    others = nums + rest[:idx] + rest[idx + 1:]
+                    def build(t, others=others):
+                        if z3.is_app(t) and t.decl().kind() == z3.Z3_OP_ITE:
+                            return z3.If(t.arg(0), build(t.arg(1)), build(t.arg(2)))
+                        prod = z3.RealVal(t.as_long()) if (z3.is_int_value(t) and e.sort().kind() == z3.Z3_REAL_SORT) else t
+                        for o in others: prod = prod * o
+                        return self.ab(z3.simplify(prod))
+                    return build(c)
             if len(rest) >= 2:
                 f = self.mulR if e.sort().kind() == z3.Z3_REAL_SORT else self.mulI
                 rest = sorted(rest, key=lambda t: t.get_id())
